@@ -84,6 +84,7 @@ Mismatch(S, e, c, o) ==
   (IF ~ok THEN {} ELSE
      (IF e.count = T.count THEN {} ELSE {(IF e.op \in {"new", "append_value"} THEN "C07" ELSE ep) \o ":count"}) \cup
      (IF Rng(e.live) = T.live THEN {} ELSE {(IF e.op \in {"new", "append_value"} THEN "C07" ELSE ep) \o ":live"}) \cup
+     (IF e.op \in {"remove", "remove_subtree"} /\ (S.live \ T.live) \cap Rng(e.live) # {} THEN {"C12:not-marked-removed"} ELSE {}) \cup
      (IF \A s \in 1..n : s \in T.live => e.links[s] = lt[s] THEN {}
         ELSE {(IF e.op = "new" THEN "C07" ELSE ep) \o ":links"}) \cup
      (IF \A s \in 1..n : s \notin T.live => (e.links[s] = lt[s] \/ (s \notin S.live /\ s <= S.count /\ Has(e, "prevlinks") /\ e.links[s] = e.prevlinks[s]))
@@ -93,7 +94,7 @@ Mismatch(S, e, c, o) ==
      (IF o.new = 0 \/ e.newtok = T.nissued THEN {} ELSE {"C06:reissued"}) \cup
      (IF \A i \in DOMAIN e.isrem : e.isrem[i][2] = (IF IsRemovedTok(T, e.isrem[i][1]) THEN 1 ELSE 0) THEN {} ELSE {"C06:is_removed"}) \cup
      (IF e.cap >= T.capLow /\ (o.capKeep => e.cap = e.prevcap) THEN {} ELSE {"C13:capacity"}) \cup
-     (IF ~Has(e, "drops") \/ Rng(e.drops) = o.drops THEN {} ELSE {"C08:drops"}) \cup
+     (IF ~Has(e, "drops") \/ (Rng(e.drops) = o.drops /\ ~e.dropped_twice) THEN {} ELSE {"C08:drops"}) \cup
      (IF ~Has(e, "idat") \/ (e.idat = IdAtSeq(T.count, T.live, T.tok) /\ e.empty = (T.count = 0)) THEN {} ELSE {"C11:get_node_id_at"}))
 
 (***************************************************************************)
@@ -112,6 +113,16 @@ ObsMatches(S, e) ==
        /\ g.kids = o.kids /\ g.rkids = o.rkids /\ g.desc = o.desc
        /\ g.trav = o.trav /\ g.rtrav = o.rtrav
        /\ g.nextS = o.nextS /\ g.nextE = o.nextE /\ g.prevS = o.prevS /\ g.prevE = o.prevE
+
+\* C10 on recorded histories: rev() and a few pull words against the deque (Observers!Pulls)
+DEMatches(S, e) ==
+  \/ e.op # "observe" \/ ~Has(e, "de")
+  \/ LET x == e.a o == ObsOf(S.f, x) d == e.de IN
+       /\ d.kidsRev = Rev(o.kids) /\ d.precRev = Rev(o.prec) /\ d.follRev = Rev(o.foll)
+       /\ \A i \in DOMAIN d.words :
+            /\ d.kidsPulls[i] = Pulls(o.kids, d.words[i])
+            /\ d.precPulls[i] = Pulls(o.prec, d.words[i])
+            /\ d.follPulls[i] = Pulls(o.foll, d.words[i])
 
 SameProjection(S, e) ==
   /\ e.count = S.count /\ Rng(e.live) = S.live
@@ -164,12 +175,13 @@ TNext ==
         ELSE Stop(IF e.a \notin S.live THEN {"TRACE:injection"} ELSE InjectMismatch(T, e))
      ELSE IF IsIdentity(e) THEN
         \* a clone / deserialised copy does not inherit reserved capacity: only count() is guaranteed
-        IF SameProjection([S EXCEPT !.capLow = IF e.op = "observe" THEN @ ELSE S.count], e) /\ ObsMatches(S, e)
+        IF SameProjection([S EXCEPT !.capLow = IF e.op = "observe" THEN @ ELSE S.count], e) /\ ObsMatches(S, e) /\ DEMatches(S, e)
            /\ (Has(e, "eq") => e.eq)        \* copy == original by the crate's own PartialEq
         THEN /\ l' = l + 1 /\ bad' = bad
              /\ capLow' = IF e.op = "observe" THEN capLow ELSE count
              /\ path' = <<[op |-> e.op]>> /\ last' = NoResult
              /\ UNCHANGED <<count, live, f, avail, retired, gen, val, tok, nissued>>
+        ELSE IF e.op = "observe" /\ ~DEMatches(S, e) THEN Stop({"C10:double-ended"})
         ELSE Stop({(CASE e.op = "round_trip" -> "C16" [] e.op = "clone_swap" -> "C13" [] OTHER -> "C09") \o ":identity-step"})
      ELSE IF ~Callable(S, e) THEN Stop({"TRACE:malformed"})
      ELSE IF e.op \in {"new", "append_value"} /\ e.res = "Ok" /\ e.new \notin NewSlotsP(S, "any")
